@@ -3699,6 +3699,77 @@ def check_optional_accessors(ck, rule, prog, file_rx, adt_rx, floor=0):
     return n
 
 
+def _decision_paths(body, pv, t, nones, somes, budget=4000):
+    """path enumeration for check_change_decision: walk from the block of test `t` with its outcome fixed to `differs`; bool locals assigned constants,
+    negations and copies on the way are tracked, the outcomes of the OTHER tests are free (both branches).  True: every path ends in a Some
+    block; False: some path ends in a None block; None: a branch on something that is not tracked."""
+    defs = pv.defs(body)
+    diff_edges = set(t["diff"])
+    same_edges = set(t["same"])
+    state = {"n": 0, "bad": False, "unknown": False}
+
+    def walk(bi, env, seen):
+        state["n"] += 1
+        if state["n"] > budget or bi in seen:
+            state["unknown"] = state["unknown"] or state["n"] > budget
+            return
+        if bi in nones:
+            state["bad"] = True
+            return
+        if bi in somes:
+            return
+        seen = seen | {bi}
+        env = dict(env)
+        blk = body.blocks[bi]
+        for st in blk.stmts:
+            if st.k != "assign" or not st.place.is_local():
+                continue
+            rv = st.rv
+            v = None
+            if rv["k"] == "use" and rv["op"].kind == "const" and (rv["op"].const or {}).get("ty") == "bool":
+                v = rv["op"].const.get("val") == "true"
+            elif rv["k"] == "use" and rv["op"].place is not None and rv["op"].place.is_local():
+                v = env.get(rv["op"].place.local)
+            elif rv["k"] == "un" and rv["op"] == "Not" and rv["o"].place is not None and rv["o"].place.is_local():
+                x = env.get(rv["o"].place.local)
+                v = (not x) if isinstance(x, bool) else None
+            elif bool_const_cmp(rv) is not None:
+                o_, sg_ = bool_const_cmp(rv)
+                x = env.get(o_.place.local)
+                v = (x if sg_ == 1 else (not x)) if isinstance(x, bool) else None
+            if v is None:
+                env.pop(st.place.local, None)
+            else:
+                env[st.place.local] = v
+        x = blk.term
+        if x.k == "switch":
+            succs = list(dict.fromkeys(x.successors()))
+            # the fixed test: only its `differs` edges
+            fixed = [tg for tg in succs if (bi, tg) in diff_edges]
+            if fixed or any((bi, tg) in same_edges for tg in succs):
+                for tg in fixed:
+                    walk(tg, env, seen)
+                return
+            l = x.discr.place.local if x.discr.place is not None and x.discr.place.is_local() else None
+            val = env.get(l) if l is not None else None
+            if isinstance(val, bool):
+                tgt = [tg for v_, tg in x.targets if v_ == (1 if val else 0)] or [x.otherwise]
+                for tg in tgt:
+                    if tg is not None:
+                        walk(tg, env, seen)
+                return
+            for tg in succs:  # a free decision (another test, or anything else): both ways
+                walk(tg, env, seen)
+            return
+        for tg in body.succ[bi]:
+            walk(tg, env, seen)
+    for e in t["diff"]:
+        walk(e[1], {}, frozenset())
+    if state["unknown"]:
+        return None
+    return not state["bad"]
+
+
 def check_change_decision(ck, rule, prog, body, label):
     """a constructor `-> Option<Self>` that answers `Some(..)` when ANY of several component tests finds a difference: from the `differs` edge of
     each component test the `None` result is no longer reachable (the tests are OR-ed, none of them is AND-ed with a later one)."""
@@ -3717,6 +3788,36 @@ def check_change_decision(ck, rule, prog, body, label):
             continue  # not one of the tests that decide between None and Some
         n += 1
         bad = bool(reach_diff & set(nones))
+        if bad:
+            # the outcome may be materialised in a bool first (`let unchanged = a.is_empty() && b.is_empty() && x == y; if unchanged { return None }`):
+            # the blocks behind the test then reach both results through a later switch on that variable, which block reachability cannot tell
+            # apart.  A switch on a bool local that is ASSIGNED (a constant, or another test's result) on the way is such a join: undecided.
+            defs_ = pv.defs(body)
+            joins = []
+            for sb in sorted(reach_diff):
+                x = body.blocks[sb].term
+                if x.k == "switch" and x.discr.place is not None and x.discr.place.is_local() and body.locals[x.discr.place.local]["s"] == "bool":
+                    # follow plain copies back to the variable
+                    l_, seen_l = x.discr.place.local, set()
+                    while l_ not in seen_l:
+                        seen_l.add(l_)
+                        ds_ = defs_.get(l_, [])
+                        if len(ds_) == 1 and ds_[0][0] == "assign" and ds_[0][2].rv["k"] == "use" and ds_[0][2].rv["op"].place is not None and ds_[0][2].rv["op"].place.is_local():
+                            l_ = ds_[0][2].rv["op"].place.local
+                        else:
+                            break
+                    ds_ = defs_.get(l_, [])
+                    if len(ds_) > 1 or any(k_ == "assign" and d_.rv["k"] == "use" and d_.rv["op"].kind == "const" for k_, p_, d_ in ds_):
+                        if any(p_[0] in reach_diff or p_[0] == t["bb"] for k_, p_, d_ in ds_):
+                            joins.append(sb)
+            if joins:
+                verdict = _decision_paths(body, pv, t, nones, somes)
+                if verdict is not None:
+                    ck.ob(rule, "decision/%s/test@%d" % (label, n), verdict, "%s: once the test in line %s finds a difference the result %s (paths through the stored condition enumerated)" % (body.short, t["line"], "is Some(..)" if verdict else
+                          "can still be None: an item that differs only in this component is not reported"), where=body.where(t["line"]))
+                    continue
+                ck.undecided(rule, "decision/%s/test@%d" % (label, n), "%s: the outcome of the test in line %s is stored in a bool that a later branch decides on (De Morgan'd / named condition): which result follows is not read off block reachability" % (body.short, t["line"]), where=body.where(t["line"]))
+                continue
         ck.ob(rule, "decision/%s/test@%d" % (label, n), not bad, "%s: once the test in line %s finds a difference the result %s" % (body.short, t["line"], "is Some(..)" if not bad else
               "can still be None (the test is AND-ed with a later one): an item that differs only in this component is not reported"), where=body.where(t["line"]))
     return n
